@@ -4,6 +4,7 @@ import (
 	"encoding/json"
 	"fmt"
 	"os"
+	"sort"
 	"strings"
 
 	"asherahverif/explore"
@@ -278,4 +279,52 @@ func Replay(prop, path string) int {
 	}
 	fmt.Println("no replay available for", v.Harness)
 	return 2
+}
+
+// RaceBodies lists the schedule-shaped harness bodies of a property for the free-running -race pass.
+func RaceBodies(prop string) map[string]explore.Body {
+	out := map[string]explore.Body{}
+	switch prop {
+	case "C08":
+		for _, sc := range c08Scenarios(true) {
+			sc := sc
+			out[sc.name] = sc.body
+		}
+	case "C16":
+		for _, sc := range c16Scenarios(true) {
+			sc := sc
+			out[sc.name] = sc.body
+		}
+	case "C11":
+		for _, sc := range c11Scenarios(true) {
+			sc := sc
+			out[sc.name] = sc.body
+		}
+	case "C14":
+		for _, sc := range c14Scenarios(true) {
+			sc := sc
+			out[sc.name] = sc.body
+		}
+	case "C13":
+		out["memory-3-stores-reader"] = c13SchedBody(3, true)
+	case "C15":
+		out["async-caches"] = c15RaceBody
+	}
+	return out
+}
+
+// RaceMain runs every body of the property n times free-running (to be built with -race).
+func RaceMain(prop string, n int) {
+	bodies := RaceBodies(prop)
+	names := make([]string, 0, len(bodies))
+	for k := range bodies {
+		names = append(names, k)
+	}
+	sort.Strings(names)
+	total, panics := 0, 0
+	for _, k := range names {
+		panics += explore.FreeRun(bodies[k], n)
+		total += n
+	}
+	fmt.Printf("RACE-PASS property=%s scenarios=%d executions=%d panics=%d\n", prop, len(names), total, panics)
 }
